@@ -25,6 +25,7 @@ import Sds.Proofs.RawVec
 import Sds.Proofs.IntVec
 import Sds.Proofs.Codec
 import Sds.Proofs.GenEqVec
+import Sds.Proofs.GenEqVec2
 
 namespace Sds.C05
 open Sds Outcome
@@ -274,5 +275,15 @@ example : (IntVec.ofList 13 [5, 8191, 77]).WF ∧
 /-- … and on it the translated code returns the stored item (and panics on the index one past the end) -/
 example : Generated.gen_IntVector_get .wrapping (IntVec.ofList 13 [5, 8191, 77]) 1 = ok 8191#64 ∧
     Generated.gen_IntVector_get .wrapping (IntVec.ofList 13 [5, 8191, 77]) 3 = fault (.panic .assert) := by decide
+
+/-- `IntVector::{new, with_len, pop, clear}` as translated from the source on this run (`Generated/FnsVec2.lean`; the
+`for _ in 0..len` of `with_len` becomes `loopM` over a counter and the local vector) -/
+theorem int_vector_more_ops_as_translated_from_source (m : Mode) (v : IntVec) (len width : Nat) (value : Word) :
+    Generated.gen_IntVector_new m width = IntVec.new width ∧
+    (len * width + 63 < U64 → Generated.gen_IntVector_with_len m len width value = IntVec.withLen len width value) ∧
+    (v.WF → v.len * v.width + 62 < U64 → Generated.gen_IntVector_pop m v = ok v.pop) ∧
+    Generated.gen_IntVector_clear m v = ok v.clear :=
+  ⟨GenEq.int_new_eq m width, fun h => GenEq.int_with_len_eq' m len width value h,
+   fun hwf hb => GenEq.int_pop_eq m v hwf hb, GenEq.int_clear_eq m v⟩
 
 end Sds.C05
